@@ -288,3 +288,149 @@ theorem lastFrame_none (w : ByteArray) (base fsz : Nat) : ∀ n p, lastFrame w b
       · exact ih p h j (by omega)
 
 end LiteFSVerif.Sqlite
+
+namespace LiteFSVerif.Sqlite
+open LiteFSVerif LiteFSVerif.BA
+
+/-! ### the WAL scanners are total: no input makes them fail (in Go: panic) -/
+
+theorem foldlM_total {σ α : Type} (step : σ → α → Except String σ) :
+    ∀ (l : List α) (st : σ), (∀ st, ∀ i ∈ l, ∃ st', step st i = .ok st') → ∃ r, l.foldlM step st = .ok r := by
+  intro l
+  induction l with
+  | nil => intro st _; exact ⟨st, rfl⟩
+  | cons a rest ih =>
+    intro st h
+    obtain ⟨st', hs⟩ := h st a (List.mem_cons_self ..)
+    obtain ⟨r, hr⟩ := ih st' (fun st i hi => h st i (List.mem_cons_of_mem _ hi))
+    refine ⟨r, ?_⟩
+    simp only [List.foldlM_cons, bind, Except.bind, hs]
+    exact hr
+
+theorem walChecksum_ok (bigE : Bool) (s0 s1 : Nat) (b : ByteArray) (h : b.size % 8 = 0) :
+    ∃ r, walChecksum bigE s0 s1 b = .ok r := by
+  unfold walChecksum
+  rw [if_neg (by omega)]
+  exact ⟨_, rfl⟩
+
+theorem readWalHeader_total (w : ByteArray) : ∃ r, readWalHeader w = .ok r := by
+  unfold readWalHeader
+  by_cases h : w.size < 32
+  · simp only [h, if_true, pure, Except.pure, bind, Except.bind]; exact ⟨_, rfl⟩
+  · simp only [h, if_false]
+    by_cases hm : be32 w 0 ≠ walMagicLE ∧ be32 w 0 ≠ walMagicBE
+    · rw [if_pos hm]; exact ⟨_, rfl⟩
+    · rw [if_neg hm]
+      have hsz : (w.extract 0 24).size % 8 = 0 := by rw [ByteArray.size_extract]; omega
+      obtain ⟨c, hc⟩ := walChecksum_ok (decide (be32 w 0 = walMagicBE)) 0 0 (w.extract 0 24) hsz
+      simp only [bind, Except.bind, hc, pure, Except.pure]
+      split
+      · exact ⟨_, rfl⟩
+      · split <;> exact ⟨_, rfl⟩
+
+/-- `readWALPageOffsets` answers on ARBITRARY bytes — garbage headers, foreign page sizes, torn
+    or misaligned tails — for every database page size that is a multiple of 8 (all valid SQLite
+    page sizes are): it never fails (in the Go code: never panics, never indexes out of range) -/
+theorem walPageOffsets_total (w : ByteArray) (ps : Nat) (hps : ps % 8 = 0) :
+    ∃ r, walPageOffsets w ps = .ok r := by
+  unfold walPageOffsets
+  obtain ⟨hr, hh⟩ := readWalHeader_total w
+  simp only [bind, Except.bind, hh]
+  cases hr with
+  | eof => exact ⟨_, rfl⟩
+  | err m => exact ⟨_, rfl⟩
+  | ok h =>
+    simp only
+    by_cases hpe : h.pageSize ≠ ps
+    · rw [if_pos hpe]; exact ⟨_, rfl⟩
+    · rw [if_neg hpe]
+      have hpe' : h.pageSize = ps := Classical.byContradiction hpe
+      have key := foldlM_total (σ := List (Nat × Nat) × List (Nat × Nat) × Nat × Nat × Nat × Bool) (α := Nat)
+        (fun st i => do
+          let (offs, tx, commit, c1, c2, stop) := st
+          if stop then pure st else
+          let off := 32 + i * (24 + h.pageSize)
+          if be32 w (off + 8) ≠ h.salt1 ∨ be32 w (off + 12) ≠ h.salt2 then pure (offs, tx, commit, c1, c2, true) else
+          let (d1, d2) ← walChecksum h.bigEndian c1 c2 (w.extract off (off + 8))
+          let (d1, d2) ← walChecksum h.bigEndian d1 d2 (w.extract (off + 24) (off + (24 + h.pageSize)))
+          if d1 ≠ be32 w (off + 16) ∨ d2 ≠ be32 w (off + 20) then pure (offs, tx, commit, c1, c2, true) else
+          let tx := mapSet tx (be32 w off) off
+          let cm := be32 w (off + 4)
+          if cm = 0 then pure (offs, tx, commit, d1, d2, false)
+          else pure (tx.foldl (fun o e => mapSet o e.1 e.2) offs, [], cm, d1, d2, false))
+        (List.range ((w.size - 32) / (24 + h.pageSize))) ([], [], 0, h.chk1, h.chk2, false) ?_
+      · obtain ⟨r, hr⟩ := key
+        simp only [bind, Except.bind] at hr
+        rw [hr]
+        exact ⟨_, rfl⟩
+      · intro st i hi
+        obtain ⟨offs, tx, commit, c1, c2, stop⟩ := st
+        have hi' : i < (w.size - 32) / (24 + h.pageSize) := List.mem_range.mp hi
+        have hfit : 32 + i * (24 + h.pageSize) + (24 + h.pageSize) ≤ w.size := by
+          have h1 : (i + 1) * (24 + h.pageSize) ≤ (w.size - 32) / (24 + h.pageSize) * (24 + h.pageSize) :=
+            Nat.mul_le_mul_right _ hi'
+          have h2 := Nat.div_mul_le_self (w.size - 32) (24 + h.pageSize)
+          rw [Nat.add_mul, Nat.one_mul] at h1
+          have h3 : 24 + h.pageSize ≤ w.size - 32 := by
+            have : 0 < (w.size - 32) / (24 + h.pageSize) := by omega
+            exact Nat.le_of_lt_succ (Nat.lt_succ_of_le ((Nat.div_pos_iff.mp this).2))
+          omega
+        simp only
+        cases stop with
+        | true => exact ⟨_, rfl⟩
+        | false =>
+          simp only [Bool.false_eq_true, if_false]
+          split
+          · exact ⟨_, rfl⟩
+          · have hs1 : (w.extract (32 + i * (24 + h.pageSize)) (32 + i * (24 + h.pageSize) + 8)).size % 8 = 0 := by
+              rw [ByteArray.size_extract]; omega
+            obtain ⟨d, hd⟩ := walChecksum_ok h.bigEndian c1 c2 _ hs1
+            have hs2 : (w.extract (32 + i * (24 + h.pageSize) + 24) (32 + i * (24 + h.pageSize) + (24 + h.pageSize))).size % 8 = 0 := by
+              rw [ByteArray.size_extract, hpe']; rw [hpe'] at hfit; omega
+            obtain ⟨e, he⟩ := walChecksum_ok h.bigEndian d.1 d.2 _ hs2
+            simp only [bind, Except.bind, hd, he]
+            split
+            · exact ⟨_, rfl⟩
+            · split <;> exact ⟨_, rfl⟩
+
+/-- `buildTxFrameOffsets` answers on arbitrary WAL bytes from any offset once the byte order is
+    known (the WAL header was read) and the page size is a multiple of 8 -/
+theorem buildTxFrames_total (w : ByteArray) (ps off : Nat) (bigE : Bool) (s1 s2 c1 c2 : Nat) (hps : ps % 8 = 0) :
+    ∃ r, buildTxFrames w ps off (some bigE) s1 s2 c1 c2 = .ok r := by
+  unfold buildTxFrames
+  have key := foldlM_total (txFrameStep w ps off (some bigE) s1 s2)
+    (List.range (if w.size ≥ off + (24 + ps) then (w.size - off) / (24 + ps) else 0)) ([], c1, c2, none) ?_
+  · obtain ⟨r, hr⟩ := key
+    simp only [bind, Except.bind, hr]
+    split <;> exact ⟨_, rfl⟩
+  · intro st i hi
+    obtain ⟨m, d1, d2, done⟩ := st
+    have hi' := List.mem_range.mp hi
+    have hfit : off + i * (24 + ps) + (24 + ps) ≤ w.size := by
+      by_cases hsz : w.size ≥ off + (24 + ps)
+      · rw [if_pos hsz] at hi'
+        have h1 : (i + 1) * (24 + ps) ≤ (w.size - off) / (24 + ps) * (24 + ps) := Nat.mul_le_mul_right _ hi'
+        have h2 := Nat.div_mul_le_self (w.size - off) (24 + ps)
+        rw [Nat.add_mul, Nat.one_mul] at h1
+        omega
+      · rw [if_neg hsz] at hi'; omega
+    unfold txFrameStep
+    simp only
+    cases hd : done.isSome with
+    | true => simp only [if_true]; exact ⟨_, rfl⟩
+    | false =>
+      simp only [Bool.false_eq_true, if_false]
+      split
+      · exact ⟨_, rfl⟩
+      · have hs1 : (w.extract (off + i * (24 + ps)) (off + i * (24 + ps) + 8)).size % 8 = 0 := by
+          rw [ByteArray.size_extract]; omega
+        obtain ⟨d, hd⟩ := walChecksum_ok bigE d1 d2 _ hs1
+        have hs2 : (w.extract (off + i * (24 + ps) + 24) (off + i * (24 + ps) + (24 + ps))).size % 8 = 0 := by
+          rw [ByteArray.size_extract]; omega
+        obtain ⟨e, he⟩ := walChecksum_ok bigE d.1 d.2 _ hs2
+        simp only [bind, Except.bind, hd, he]
+        split
+        · exact ⟨_, rfl⟩
+        · split <;> exact ⟨_, rfl⟩
+
+end LiteFSVerif.Sqlite
